@@ -22,6 +22,8 @@ type cval struct {
 	v     constant.Value
 	isNil bool // the nil constant of a pointer/interface/slice type
 	nonNil bool // known to be non-nil (fresh allocation, fmt.Errorf result, ...)
+	// fields: a struct value, by field index (entries may be unknown)
+	fields map[int]cval
 }
 
 var unknownVal = cval{}
@@ -59,6 +61,10 @@ type Folder struct {
 	// tuples holds, per evaluated call with several results, the agreed
 	// constant of each position (nil entries: unknown)
 	tuples map[*ssa.Call][]cval
+	// lookups holds the (value, ok) of the last evaluation of a comma-ok
+	// lookup in a package-level table
+	lookups map[*ssa.Lookup][]cval
+	gmaps   map[*ssa.Global]map[string]cval
 
 	startBlock, startPred *ssa.BasicBlock
 	preset                map[ssa.Value]cval
@@ -164,6 +170,18 @@ func (f *Folder) eval(fn *ssa.Function, args []cval, depth int) []Outcome {
 			case *ssa.UnOp:
 				if x.Op == token.MUL {
 					if _, assumed := f.assume(x); !assumed {
+						// a local struct: assemble it from its tracked fields
+						if sv, ok := loadStruct(mem, x.X); ok {
+							env[x] = sv
+							break
+						}
+						// a package-level lookup table, never written after init
+						if g, ok := x.X.(*ssa.Global); ok {
+							if t := f.globalMap(g); t != nil {
+								env[x] = cval{nonNil: true}
+								break
+							}
+						}
 						if k := addrKey(env, f, x.X); k != "" {
 							if v, ok := mem[k]; ok {
 								env[x] = v
@@ -178,7 +196,38 @@ func (f *Folder) eval(fn *ssa.Function, args []cval, depth int) []Outcome {
 					f.OnStore(x, f.val(env, x.Val))
 				}
 				if k := addrKey(env, f, x.Addr); k != "" {
-					mem[k] = f.val(env, x.Val)
+					sv := f.val(env, x.Val)
+					mem[k] = sv
+					storeStruct(mem, x.Addr, sv)
+				}
+			case *ssa.Field:
+				env[x] = unknownVal
+				if sv := f.val(env, x.X); sv.fields != nil {
+					if fv, ok := sv.fields[x.Field]; ok {
+						env[x] = fv
+					}
+				}
+			case *ssa.Lookup:
+				env[x] = unknownVal
+				if f.lookups != nil {
+					delete(f.lookups, x)
+				}
+				if ld, ok := x.X.(*ssa.UnOp); ok && ld.Op == token.MUL {
+					if g, ok := ld.X.(*ssa.Global); ok {
+						if t := f.globalMap(g); t != nil {
+							if k := f.val(env, x.Index); k.known {
+								v, found := t[k.v.ExactString()]
+								if x.CommaOk {
+									if f.lookups == nil {
+										f.lookups = map[*ssa.Lookup][]cval{}
+									}
+									f.lookups[x] = []cval{v, {known: true, v: constant.MakeBool(found)}}
+								} else if found {
+									env[x] = v
+								}
+							}
+						}
+					}
 				}
 			case *ssa.Convert:
 				env[x] = convertConst(f.val(env, x.X), x.Type())
@@ -204,6 +253,11 @@ func (f *Folder) eval(fn *ssa.Function, args []cval, depth int) []Outcome {
 				env[x] = f.call(env, x, depth)
 			case *ssa.Extract:
 				env[x] = unknownVal
+				if lk, ok := x.Tuple.(*ssa.Lookup); ok && f.lookups != nil {
+					if t, ok := f.lookups[lk]; ok && x.Index < len(t) {
+						env[x] = t[x.Index]
+					}
+				}
 				if cl, ok := x.Tuple.(*ssa.Call); ok && f.tuples != nil {
 					if t, ok := f.tuples[cl]; ok && x.Index < len(t) {
 						env[x] = t[x.Index]
@@ -281,6 +335,8 @@ func stateKey(b, pred *ssa.BasicBlock, env fenv) string {
 			parts = append(parts, v.Name()+"="+c.v.ExactString())
 		case c.isNil:
 			parts = append(parts, v.Name()+"=nil")
+		case c.fields != nil:
+			parts = append(parts, v.Name()+"="+fieldsKey(c.fields))
 		}
 	}
 	sort.Strings(parts)
@@ -696,6 +752,8 @@ func memKey(m map[string]cval) string {
 	for k, v := range m {
 		if v.known {
 			parts = append(parts, k+"="+v.v.ExactString())
+		} else if v.fields != nil {
+			parts = append(parts, k+"="+fieldsKey(v.fields))
 		}
 	}
 	sort.Strings(parts)
@@ -708,6 +766,10 @@ func addrKey(env fenv, f *Folder, addr ssa.Value) string {
 	switch a := addr.(type) {
 	case *ssa.Alloc:
 		return a.Name()
+	case *ssa.FieldAddr:
+		if al, ok := a.X.(*ssa.Alloc); ok {
+			return al.Name() + "." + fmt.Sprint(a.Field)
+		}
 	case *ssa.IndexAddr:
 		idx := f.val(env, a.Index)
 		if !idx.known {
@@ -727,4 +789,203 @@ func addrKey(env fenv, f *Folder, addr ssa.Value) string {
 		}
 	}
 	return ""
+}
+
+
+// loadStruct: the value of a local struct variable assembled from what the
+// evaluation stored into it (as a whole or field by field).
+func loadStruct(mem map[string]cval, addr ssa.Value) (cval, bool) {
+	al, ok := addr.(*ssa.Alloc)
+	if !ok {
+		return cval{}, false
+	}
+	st, ok := al.Type().(*types.Pointer).Elem().Underlying().(*types.Struct)
+	if !ok {
+		return cval{}, false
+	}
+	fs := map[int]cval{}
+	if whole, ok := mem[al.Name()]; ok && whole.fields != nil {
+		for i, v := range whole.fields {
+			fs[i] = v
+		}
+	}
+	for i := 0; i < st.NumFields(); i++ {
+		if v, ok := mem[al.Name()+"."+fmt.Sprint(i)]; ok {
+			fs[i] = v
+		}
+	}
+	if len(fs) == 0 {
+		return cval{}, false
+	}
+	return cval{fields: fs}, true
+}
+
+// storeStruct keeps whole-struct and per-field entries of a local consistent.
+func storeStruct(mem map[string]cval, addr ssa.Value, v cval) {
+	if al, ok := addr.(*ssa.Alloc); ok {
+		// whole-variable store: older per-field entries are stale
+		for mk := range mem {
+			if strings.HasPrefix(mk, al.Name()+".") {
+				delete(mem, mk)
+			}
+		}
+	}
+}
+
+func fieldsKey(fs map[int]cval) string {
+	ks := make([]int, 0, len(fs))
+	for k := range fs {
+		ks = append(ks, k)
+	}
+	sort.Ints(ks)
+	var sb strings.Builder
+	sb.WriteString("{")
+	for _, k := range ks {
+		c := fs[k]
+		switch {
+		case c.known:
+			fmt.Fprintf(&sb, "%d:%s,", k, c.v.ExactString())
+		case c.isNil:
+			fmt.Fprintf(&sb, "%d:nil,", k)
+		}
+	}
+	sb.WriteString("}")
+	return sb.String()
+}
+
+
+// globalMap returns the contents of a package-level map variable that is
+// built once by its initialiser with constant keys and constant (or constant
+// struct) values and never written again in its package: a lookup table.
+// Keys are the ExactString of the constant key. nil when g is not such a map.
+func (f *Folder) globalMap(g *ssa.Global) map[string]cval {
+	if t, ok := f.gmaps[g]; ok {
+		return t
+	}
+	if f.gmaps == nil {
+		f.gmaps = map[*ssa.Global]map[string]cval{}
+	}
+	f.gmaps[g] = nil
+	if _, isMap := g.Type().(*types.Pointer).Elem().Underlying().(*types.Map); !isMap || g.Pkg == nil {
+		return nil
+	}
+	if !token.IsExported(g.Name()) {
+		// (an exported variable could be written from another package)
+	} else {
+		return nil
+	}
+	var mk ssa.Value
+	stores := 0
+	var fns []*ssa.Function
+	for _, m := range g.Pkg.Members {
+		if fn, ok := m.(*ssa.Function); ok {
+			fns = append(fns, fn)
+		}
+		if tp, ok := m.(*ssa.Type); ok {
+			for _, t := range []types.Type{tp.Type(), types.NewPointer(tp.Type())} {
+				ms := g.Pkg.Prog.MethodSets.MethodSet(t)
+				for i := 0; i < ms.Len(); i++ {
+					if fn := g.Pkg.Prog.MethodValue(ms.At(i)); fn != nil && fn.Pkg == g.Pkg {
+						fns = append(fns, fn)
+					}
+				}
+			}
+		}
+	}
+	for i := 0; i < len(fns); i++ {
+		fns = append(fns, fns[i].AnonFuncs...)
+	}
+	okAll := true
+	isG := func(v ssa.Value) bool {
+		ld, ok := v.(*ssa.UnOp)
+		return ok && ld.X == ssa.Value(g)
+	}
+	for _, fn := range fns {
+		isInit := fn.Name() == "init" && fn.Synthetic != ""
+		instrs(fn, func(_ *ssa.BasicBlock, _ int, in ssa.Instruction) {
+			switch x := in.(type) {
+			case *ssa.Store:
+				if x.Addr == ssa.Value(g) {
+					stores++
+					mk = x.Val
+					if !isInit {
+						okAll = false
+					}
+				}
+			case *ssa.MapUpdate:
+				if isG(x.Map) {
+					okAll = false // written through the variable
+				}
+			case *ssa.Call:
+				if b, ok := x.Call.Value.(*ssa.Builtin); ok && (b.Name() == "delete" || b.Name() == "clear") && len(x.Call.Args) > 0 && isG(x.Call.Args[0]) {
+					okAll = false
+				}
+			}
+		})
+	}
+	if !okAll || stores != 1 || mk == nil {
+		return nil
+	}
+	if _, ok := mk.(*ssa.MakeMap); !ok {
+		return nil
+	}
+	table := map[string]cval{}
+	for _, ref := range *mk.Referrers() {
+		switch x := ref.(type) {
+		case *ssa.MapUpdate:
+			k, isK := x.Key.(*ssa.Const)
+			if !isK || k.Value == nil {
+				return nil
+			}
+			var v cval
+			switch y := x.Value.(type) {
+			case *ssa.Const:
+				if y.Value == nil {
+					return nil
+				}
+				v = cval{known: true, v: y.Value}
+			case *ssa.UnOp:
+				al, isAl := y.X.(*ssa.Alloc)
+				if !isAl || y.Op != token.MUL {
+					return nil
+				}
+				st, isSt := al.Type().(*types.Pointer).Elem().Underlying().(*types.Struct)
+				if !isSt {
+					return nil
+				}
+				fs := map[int]cval{}
+				for i := 0; i < st.NumFields(); i++ {
+					// unset integer fields of a composite literal are zero
+					if bt, ok := st.Field(i).Type().Underlying().(*types.Basic); ok && bt.Info()&types.IsInteger != 0 {
+						fs[i] = cInt(0)
+					}
+				}
+				for _, r2 := range *al.Referrers() {
+					fa, ok := r2.(*ssa.FieldAddr)
+					if !ok {
+						continue
+					}
+					for _, r3 := range *fa.Referrers() {
+						if st2, ok := r3.(*ssa.Store); ok {
+							if c2, ok := st2.Val.(*ssa.Const); ok && c2.Value != nil {
+								fs[fa.Field] = cval{known: true, v: c2.Value}
+							} else {
+								delete(fs, fa.Field)
+							}
+						}
+					}
+				}
+				v = cval{fields: fs}
+			default:
+				return nil
+			}
+			table[k.Value.ExactString()] = v
+		case *ssa.Store:
+			// the store into the variable
+		default:
+			return nil
+		}
+	}
+	f.gmaps[g] = table
+	return table
 }
